@@ -91,14 +91,47 @@ MetStep(c, t) ==
          \o FlattenSeq([k \in 1..c.nz |-> << Grid(c, 1, t, k), Grid(c, 2, t, k) >>])
          \o << << I(0) >> >>
 
+\* ----------------------------------------------------------- cloud/rain
+\* header record: a description (raw characters, four per word) and the grid;
+\* per step a time record (HHMM as a float, YYJJJ) and, layer by layer, one
+\* slab per variable (5 variables since CAMx 4.3, 3 before)
+S4(str) == [t |-> "s", v |-> str]
+CloudNames(c) == IF c.nv = 5 THEN <<"CLOUD", "RAIN", "SNOW", "GRAUPEL", "COD">> ELSE <<"CLOUD", "PRECIP", "COD">>
+CloudHeader(c) == << << S4("CAMx"), S4(" CLD") >> \o << I(c.nx), I(c.ny), I(c.nz) >> >>
+CloudStep(c, t) ==
+  << << F(HourOf(BeginOf(c, t)) * 100), I(YYJJJ(BeginOf(c, t))) >> >>
+  \o FlattenSeq([k \in 1..c.nz |-> [v \in 1..c.nv |-> Grid(c, v, t, k)]])
+
+\* ------------------------------------------------------- lateral boundary
+\* the four header records of the gridded format (NAME = BOUNDARY), four edge
+\* definition records (west, east, south, north), and per step a time record
+\* followed by one record per species and edge: 1, the species name, the edge
+\* number and the edge's cells with the layer index running fastest
+EdgeCells(c, e) == IF e <= 2 THEN c.ny ELSE c.nx
+EdgeIndex(c, e) == CASE e = 1 -> 2 [] e = 2 -> c.nx - 1 [] e = 3 -> 2 [] e = 4 -> c.ny - 1
+EdgeDef(c, e) ==
+  << I(1), I(e), I(EdgeCells(c, e)) >> \o
+  [q \in 1..(4 * EdgeCells(c, e)) |->
+     LET cell == ((q - 1) \div 4) + 1 IN
+     I(IF (q - 1) % 4 = 0 /\ cell # 1 /\ cell # EdgeCells(c, e) THEN EdgeIndex(c, e) ELSE 0)]
+EdgeData(c, s, t, e) ==
+  << I(1) >> \o A4(c.spc[s], 10) \o << I(e) >> \o
+  [q \in 1..(EdgeCells(c, e) * c.nz) |-> F(Token(s, t, ((q - 1) % c.nz) + 1, ((q - 1) \div c.nz) + 1, e))]
+LatHeader(c) == UamivHeader(c) \o [e \in 1..4 |-> EdgeDef(c, e)]
+LatStep(c, t) ==
+  << << D(BeginOf(c, t)), Hr(BeginOf(c, t)), DE(EndOf(c, t)), HE(EndOf(c, t)) >> >>
+  \o FlattenSeq([s \in 1..Len(c.spc) |-> [e \in 1..4 |-> EdgeData(c, s, t, e)]])
+EdgeNames == <<"WEST", "EAST", "SOUTH", "NORTH">>
+
 \* the variables a reader of the format presents: name, token species, surface?
 FmtVars(c) ==
-  CASE c.fmt = "one3d" -> << [name |-> "UNKNOWN", s |-> 1, surf |-> FALSE] >>
-    [] c.fmt = "humidity" -> << [name |-> "HUM", s |-> 1, surf |-> FALSE] >>
-    [] c.fmt = "vertical_diffusivity" -> << [name |-> "KV", s |-> 1, surf |-> FALSE] >>
-    [] c.fmt = "temperature" -> << [name |-> "SURFTEMP", s |-> 1, surf |-> TRUE], [name |-> "AIRTEMP", s |-> 2, surf |-> FALSE] >>
-    [] c.fmt = "height_pressure" -> << [name |-> "HGHT", s |-> 1, surf |-> FALSE], [name |-> "PRES", s |-> 2, surf |-> FALSE] >>
-    [] c.fmt = "wind" -> << [name |-> "U", s |-> 1, surf |-> FALSE], [name |-> "V", s |-> 2, surf |-> FALSE] >>
+  CASE c.fmt = "one3d" -> << [name |-> "UNKNOWN", s |-> 1, surf |-> FALSE, edge |-> 0] >>
+    [] c.fmt = "humidity" -> << [name |-> "HUM", s |-> 1, surf |-> FALSE, edge |-> 0] >>
+    [] c.fmt = "vertical_diffusivity" -> << [name |-> "KV", s |-> 1, surf |-> FALSE, edge |-> 0] >>
+    [] c.fmt = "temperature" -> << [name |-> "SURFTEMP", s |-> 1, surf |-> TRUE, edge |-> 0], [name |-> "AIRTEMP", s |-> 2, surf |-> FALSE, edge |-> 0] >>
+    [] c.fmt = "height_pressure" -> << [name |-> "HGHT", s |-> 1, surf |-> FALSE, edge |-> 0], [name |-> "PRES", s |-> 2, surf |-> FALSE, edge |-> 0] >>
+    [] c.fmt = "cloud_rain" -> [v \in 1..c.nv |-> [name |-> CloudNames(c)[v], s |-> v, surf |-> FALSE, edge |-> 0]]
+    [] c.fmt = "wind" -> << [name |-> "U", s |-> 1, surf |-> FALSE, edge |-> 0], [name |-> "V", s |-> 2, surf |-> FALSE, edge |-> 0] >>
 
 \* compact form for large grids: the data slab is one field [t |-> "g", s, tt, k]
 \* that the serialiser expands with the token rule (ny * nx floats)
@@ -118,6 +151,8 @@ CompleteStepsA(c, n) == IF n < UamivHeaderBytesA(c) THEN 0 ELSE (n - UamivHeader
 Layout(c) ==
   CASE c.fmt = "uamiv" -> UamivHeader(c) \o FlattenSeq([t \in 1..c.nt |-> UamivStep(c, t)])
     [] c.fmt \in MetFmts -> FlattenSeq([t \in 1..c.nt |-> MetStep(c, t)])
+    [] c.fmt = "cloud_rain" -> CloudHeader(c) \o FlattenSeq([t \in 1..c.nt |-> CloudStep(c, t)])
+    [] c.fmt = "lateral_boundary" -> LatHeader(c) \o FlattenSeq([t \in 1..c.nt |-> LatStep(c, t)])
 
 \* ------------------------------------------------------------ record algebra
 RecBytes(r) == 4 * Len(r) + 8                  \* payload + two length markers
@@ -126,12 +161,14 @@ SumLens(rs) == IF Len(rs) = 0 THEN 0 ELSE RecBytes(Head(rs)) + SumLens(Tail(rs))
 FileBytes(c) == SumLens(Layout(c))
 \* offset of the first byte after the first n records
 Offset(c, n) == SumLens(SubSeq(Layout(c), 1, n))
-NHeader(c) == CASE c.fmt = "uamiv" -> 4 [] c.fmt \in MetFmts -> 0
+NHeader(c) == CASE c.fmt = "uamiv" -> 4 [] c.fmt \in MetFmts -> 0 [] c.fmt = "cloud_rain" -> 1 [] c.fmt = "lateral_boundary" -> 8
 RecsPerStep(c) == CASE c.fmt = "uamiv" -> 1 + Len(c.spc) * c.nz
                     [] c.fmt \in OneVarFmts -> c.nz
                     [] c.fmt = "temperature" -> c.nz + 1
                     [] c.fmt = "height_pressure" -> 2 * c.nz
                     [] c.fmt = "wind" -> 2 * c.nz + 2
+                    [] c.fmt = "cloud_rain" -> 1 + c.nz * c.nv
+                    [] c.fmt = "lateral_boundary" -> 1 + 4 * Len(c.spc)
 \* number of complete time steps contained in the first n bytes
 CompleteSteps(c, n) ==
   LET hb == Offset(c, NHeader(c))
@@ -155,6 +192,23 @@ WindOpenF(cc, nn, legacy) ==
                     ELSE nn \div WindStepBytes(cc)
        IN IF times <= 0 THEN [k |-> "Err", n |-> 0] ELSE [k |-> "Steps", n |-> times]
 
+\* ---- the cloud/rain reader's decision procedure on the first n bytes
+\* the header gives the grid; the number of variables is not stored: the reader
+\* tries 5, then 3, and takes the first for which the data section is a whole
+\* number of steps
+CloudHeaderBytes(cc) == RecBytes(CloudHeader(cc)[1])
+CloudStepBytesNV(cc, nv) == nv * cc.nz * (cc.nx * cc.ny + 2) * 4 + 16
+CloudOpenF(cc, nn) ==
+  IF nn <= CloudHeaderBytes(cc) THEN [k |-> "Err", n |-> 0, nv |-> 0]
+  ELSE LET d == nn - CloudHeaderBytes(cc) IN
+       IF d % CloudStepBytesNV(cc, 5) = 0 THEN [k |-> "Steps", n |-> d \div CloudStepBytesNV(cc, 5), nv |-> 5]
+       ELSE IF d % CloudStepBytesNV(cc, 3) = 0 THEN [k |-> "Steps", n |-> d \div CloudStepBytesNV(cc, 3), nv |-> 3]
+       ELSE [k |-> "Err", n |-> 0, nv |-> 0]
+\* a complete file that the rule reads with the other variable count
+CloudAmbiguous(cc) == CloudOpenF(cc, CloudHeaderBytes(cc) + cc.nt * CloudStepBytesNV(cc, cc.nv)).nv # cc.nv
+\* a prefix that the rule reads with the other variable count
+CloudAliased(cc, nn) == LET o == CloudOpenF(cc, nn) IN o.k = "Steps" /\ o.nv # cc.nv
+
 \* ------------------------------------- matching decoded words against a record
 \* a decoded word w = [i : as int32, f : as float32 when a small integer else
 \*                     a large sentinel, c : its first byte as a character when
@@ -163,6 +217,7 @@ WordMatches(fld, w) ==
   CASE fld.t = "i" -> w.i = fld.v
     [] fld.t = "f" -> w.fok /\ w.f = fld.v
     [] fld.t = "c" -> w.cok /\ w.c = fld.v
+    [] fld.t = "s" -> w.s = fld.v
     [] OTHER -> TRUE                      \* date/hour pairs are matched together
 PairMatches(exp, words, k) ==
   exp[k].t \in {"date", "edate"} =>
